@@ -19,6 +19,9 @@ fi
 python3 mc/tools/mkoverlay.py "$W/overlay.json" $GROUPS_ ${VERIF_EXTRA_OVERLAY:-} ${EXTRA:-} || exit 2
 ( cd mc && $GO build -overlay "$W/overlay.json" -o "$W/$id.bin" ./props/$id ) > "$W/build.log" 2>&1 || {
   echo "[$ID] BUILD FAILED (harness could not be built against the current /repo tree)"; tail -30 "$W/build.log"; exit 2; }
+if [ -x mc/props/$id/build_extra.sh ]; then
+  mc/props/$id/build_extra.sh "$W" > "$W/build_extra.log" 2>&1 || { echo "[$ID] extra build step failed"; tail -20 "$W/build_extra.log"; exit 2; }
+fi
 case "$MODE" in
   quick|thorough)
     rm -f "$EVD/$ID.json"
